@@ -424,3 +424,12 @@ UT = {"LIFE_SERVER": (["C08"], "utls_init -> utls_server with every sub-operatio
       "DELEGATE": (["C01", "C03", "C04", "C16", "C17"], "send/receive/finish/counters/max_msg/update of a connected UTLS socket go to the one live leg, results passed through")}
 for op, (props, d) in UT.items():
     ob("utls." + op.lower(), "utls/utls_h.c", ["-DOP_" + op], props, unwind=16, desc=d)
+
+# --------------------------------------------------------------------------
+# DNS: xcm_dns_cares.c over a CARES contract mock
+# --------------------------------------------------------------------------
+DN = {"SYNC": (["C13", "C04", "C08"], "xcm_dns_resolve_sync with the resolver answering (success with 1..3 addresses, NXDOMAIN, timeout) within two rounds, xpoll/timerfd creation failing at will: returns - ENOENT on failure -, everything released"),
+      "PROCESS": (["C13", "C04", "C05", "C08", "C16"], "xcm_dns_resolve + one xcm_dns_query_process step + result + destroy: addresses in the resolver's order, failure/timeout -> ENOENT, c-ares sockets registered exactly while in progress, completed query arms an immediate wake-up"),
+      "LIFE": (["C08"], "xcm_dns_resolve with timer manager / resolver configuration failing: NULL, nothing left behind")}
+for op, (props, d) in DN.items():
+    ob("dns." + op.lower(), "dns/dns_h.c", ["-DOP_" + op], props, unwind=18, unwindset=["xcm_dns_resolve_sync.0:5"], desc=d)
